@@ -1254,6 +1254,19 @@ fn main() {
     for k in if thorough { vec![6000u64, 3000, 1500, 20000] } else { vec![3000u64] } {
         cases.push(Case { kind: Kind::Session, load: Load::EndRace(k), subs: 5, sched: vec![], others: 0, reads: 0, loss: 0, probe: false });
     }
+    // ---- a task stream longer than its channel (2 x 8500 frames through the real TaskEmitter): the subscriber attaches
+    // first and reads last, so its receiver lags and the task handler has to refill from the history
+    if thorough {
+        cases.push(Case { kind: Kind::Task, load: Load::TwoProducers(8500), subs: 1, sched: vec![1, 1], others: 0, reads: 0, loss: 0, probe: false });
+    }
+    // ---- a thread subscriber lags because of OTHER threads' frames (the continuity channel is shared): it attaches, the
+    // thread gets its message (3 live frames), then 8300 branch calls put 16 600 foreign frames on the channel, then it
+    // reads: its own 3 frames were pushed out of the receiver and must come back from the history
+    if thorough {
+        let mut s = vec![1, 1];
+        s.extend(vec![0; 160]);
+        cases.push(Case { kind: Kind::Thread, load: Load::Messages(1), subs: 1, sched: s, others: 8300, reads: 0, loss: 0, probe: false });
+    }
     // ---- two producers on one task stream (stdout pump / stderr pump): one emit = 9 points
     // (before_emit, seq_chosen, recorded, sent, log.before_lock, log.locked, log.body_written, log.nl_written, log.flushed)
     {
